@@ -123,6 +123,29 @@ pub fn hostile_corpus(rng: &mut Rng) -> Vec<GenFrame> {
         }
         v.push(GenFrame { bytes: frame(ty, &[rng.byte(), rng.byte()]), class: "two-byte" });
     }
+    // headers that must be REJECTED, one defect at a time, on frames that would change the session if they were accepted (a
+    // disarming / arming registration, a resume-all): each padding byte alone, each magic byte, the version, length 0 and 1025
+    for (ty, payload) in [(0x10u8, vec![0x00u8, b'x']), (0x10, vec![0x10, b'x']), (0x20, vec![0x01])] {
+        let good = frame(ty, &payload);
+        for pos in [0usize, 1, 2, 3, 7, 8, 9] {
+            for val in [0x01u8, 0x80, 0xFF] {
+                let mut f = good.clone();
+                if f[pos] == val {
+                    continue;
+                }
+                f[pos] = val;
+                v.push(GenFrame { bytes: f, class: "bad-header-one-byte" });
+            }
+        }
+        let mut f = good.clone();
+        f[5] = 0;
+        f[6] = 0;
+        v.push(GenFrame { bytes: f, class: "bad-header-length" });
+        let mut f = good.clone();
+        f[5] = 0x04;
+        f[6] = 0x01;
+        v.push(GenFrame { bytes: f, class: "bad-header-length" });
+    }
     // frames the daemon must SKIP (unknown type, fixed-size type announced with another size) with payloads of every size
     // class up to the limit; the payload carries well-formed frames (a disarming registration, a stop-all) at its tail and
     // at offset 256, which must NOT be read as frames
